@@ -329,7 +329,7 @@ def evaluate(mod, cases, rep=None):
     Returns (observations, {index: code})."""
     obs = mod.observe(cases)
     terms = [mod.to_coq(c, o) for c, o in zip(cases, obs)]
-    codes = run_cases(mod.PID, mod.CHK, terms, shard=getattr(mod, 'SHARD', 400))
+    codes = run_cases(mod.PID, mod.CHK, terms, shard=getattr(mod, 'SHARD', 400), extra_imports=getattr(mod, 'IMPORTS', ()))
     return obs, codes
 
 
@@ -386,7 +386,7 @@ def standard_check(mod, tier, seed):
             nontrivial += 1
     rep.coverage.update({
         'evaluations': len(cases), 'distinct_nontrivial': nontrivial, 'rule': mod.RULE,
-        'samples': [dict(case=cases[i], observation=obs[i]) for i in range(min(2, len(cases)))],
+        'samples': pick_samples(mod, cases, obs),
         'corpus_cases': len(corpus),
         'traces_validated_against_impl': len(cases),
     })
@@ -448,6 +448,14 @@ def standard_check(mod, tier, seed):
             rep.violation({'property': mod.PID, 'kind': 'property no longer shown to hold',
                            'broken_theorems': broken, 'broken_correspondence': what}, no_input=True)
     return rep.finish(proof)
+
+
+def pick_samples(mod, cases, obs, k=2):
+    idx = [i for i, c in enumerate(cases) if mod.nontrivial(c)] or list(range(len(cases)))
+    idx.sort(key=lambda i: len(json.dumps(cases[i], default=str)) + len(json.dumps(obs[i], default=str)))
+    # smallest non-trivial case and a median-sized one
+    chosen = [idx[0], idx[len(idx) // 2]] if len(idx) > 1 else idx[:1]
+    return [dict(case=cases[i], observation=obs[i]) for i in chosen[:k]]
 
 
 COMMON_TRUSTED = [
